@@ -44,6 +44,19 @@ CHECKS = {
          "locators (paths) denote the same nodes when the IR is the same"),
 }
 
+CHECKS.update({
+ "C03": ("exploration", "every procedure the front end accepts (incl. one-off unsafe twins) executed in the reference interpreter with bounds / call-precondition / shape / aliasing / loop-bound monitors on boundary inputs", "ir-sanitizer", "3/C03",
+         "Held on K accepted programs x inputs: no monitor event.", "vf/refinterp.py defines the events; sampled value ranges"),
+ "C05": ("exploration", "replace() on kernels obtained by inlining generated callees, with the same callee, a stricter variant and near-miss callees; result judged in the reference interpreter (equivalence, call preconditions, window containment, inline round trip)", "refinterp-differential", "3/C05",
+         "Held on K successful unifications.", "callee semantics = its Exo body"),
+ "C10": ("exploration", "C01's differential oracle on configuration-touching primitive applications with >= 8 random initial configuration states, the system's own reported modulo-set as exemption; call_eqv driven with derived and with other-origin callees", "refinterp-differential", "3/C10",
+         "Held on K config-touching applications.", "a changed config value that is read later reaches a buffer or the final config state"),
+ "C12": ("exploration", "ordered effect trace (writes/reduces on arguments, config writes, with values) and final state of p vs simplify(p) / eliminate_dead_code(p) on valid inputs with pairwise distinct buffer contents; every simplify call inside stdlib compositions hooked", "effect-trace", "3/C12",
+         "Held on K simplify applications that changed the procedure.", "reads are not compared (simplify may drop one)"),
+ "C19": ("exploration", "partial_eval / transpose / add_assertion / rename / make_instr / set_precision / set_memory / set_window / parallelize_loop results executed against the original on related inputs in the reference interpreter", "refinterp-differential", "3/C19",
+         "Held on K applications.", "precision changes judged on real-number semantics"),
+})
+
 PENDING = {
 }
 
